@@ -269,8 +269,9 @@ fn recycler_replay() {
         engine.run(src).map(|vals| vals.last().map(|v| v.to_string()).unwrap_or_default()).map_err(|e| e.to_string())
     };
     eval("(define (helper) 'old)".to_string()).unwrap();
-    eval("(define (make-f) (lambda () (list (helper))))".to_string()).unwrap();
-    eval(format!("(define h {})", wrap.replace("X", "(make-f)"))).unwrap();
+    // the function that refers to `helper` is a lambda literal of this top-level expression: its code is owned by
+    // no global function, it is reachable only through the holder
+    eval(format!("(define h {})", wrap.replace("X", "(lambda () (list (helper)))"))).unwrap();
     let call = format!("({})", unwrap);
     let before = eval(call.clone());
     eval("(define (helper) 'new)".to_string()).unwrap();
